@@ -160,7 +160,7 @@ Record tobs := {
   to_done : bool;
   to_res : option bool
 }.
-Record tcase := { tc_model : bool;              (* source has the shape of the model (CAS claim; completion = map Load, Load, Store) *)
+Record tcase := { tc_variant : option cvariant;   (* which entry the deferred block releases, as found in the source; None = a shape the model does not have *)
                   tc_outcomes : list outcome; tc_steps : list tobs }.
 
 Fixpoint bools_eqb (a b : list bool) : bool :=
@@ -172,21 +172,21 @@ Fixpoint bools_eqb (a b : list bool) : bool :=
 Definition tpc_done (p : tpc) : bool := match p with PDone _ => true | _ => false end.
 Definition tpc_res (p : tpc) : option bool := match p with PDone r => Some r | _ => None end.
 
-Fixpoint tcheck_steps (s : tstate) (steps : list tobs) (n : N) : list (N * N) :=
+Fixpoint tcheck_steps (v : cvariant) (s : tstate) (steps : list tobs) (n : N) : list (N * N) :=
   match steps with
   | [] => []
   | o :: rest =>
-      let s' := tsched_step VCurrent s (to_thread o) in
+      let s' := tsched_step v s (to_thread o) in
       let p := fst (nth (to_thread o) (t_pcs s') (PDone false, OFail)) in
       (if Nat.eqb (to_cur o) (t_cur s') && bools_eqb (to_flags o) (map (t_flag s') (seq 0 (t_next s')))
           && Nat.eqb (to_inflight o) (in_flight s') && Bool.eqb (to_done o) (tpc_done p)
           && (if to_done o then optb_eqb (to_res o) (tpc_res p) else true)
        then [] else [(n, 1%N)])
       ++ (if Nat.leb (in_flight s') 1 then [] else [(n, 3%N)])
-      ++ tcheck_steps s' rest (n + 1)%N
+      ++ tcheck_steps v s' rest (n + 1)%N
   end.
 
 (* codes: 1 impl<>model at a step   2 impl<>spec: two refreshes of the key in flight   3 model<>spec *)
 Definition tcheck_case (c : tcase) : list (N * N) :=
-  (if tc_model c then tcheck_steps (tinit (tc_outcomes c)) (tc_steps c) 0%N else [])
+  (match tc_variant c with Some v => tcheck_steps v (tinit (tc_outcomes c)) (tc_steps c) 0%N | None => [] end)
   ++ (if forallb (fun o => Nat.leb (to_inflight o) 1) (tc_steps c) then [] else [(0%N, 2%N)]).
